@@ -124,4 +124,17 @@ CLAIMS = {
                 'set with reasons.  Paths are complete up to two visits per block; deeper iterations are not explored.',
         'technique': 'symbolic shape analysis (abstract link-heap execution per CFG path) + who-may-write + dominance/ordering rules',
     },
+    'C19': {
+        'text': 'Decides the pairing / restoration structure that keeps the stream intact across gr_seg_justify and gr_slot_linebreak_before, '
+                'for every width, flag, sub-range and call history: every non-exempt path from the narrowing of m_first/m_last to a return '
+                'restores the values saved before it; the entry and exit reverseSlots() pair up under the same, unmodified condition and no '
+                'return lies between them; each line-end sentinel added is removed under the same condition, addLineEnd runs while m_last is '
+                'still the true tail, and the symbolic composition addLineEnd;delLineEnd restores every link of every pre-existing slot (both '
+                'shapes) and frees the sentinel; gr_slot_linebreak_before nulls exactly the three links across the cut; list mutators are '
+                'rejected in justification passes.  NOT decided: finiteness of widths/origins, and that reverseSlots undoes itself for every '
+                'arrangement of diacritics (value-dependent relinking).',
+        'note': 'Trusted: clang 14 CFG, tools/grfacts, rules/c19.py, rules/linksym.py, rules/dom.py.  The allocation-failure exit `return -1.0` '
+                'is exempt (DESIGN.md section 7, F7).',
+        'technique': 'CFG must-pass / pairing rules with correlated-condition edge cuts + symbolic composition of two functions on an abstract link heap',
+    },
 }
